@@ -90,7 +90,18 @@ def core_all_fids(spec):
     return all_fids(spec)
 
 
+import enum
+
+
+class _Colour(str, enum.Enum):
+    RED = "1"
+
+
 EQUALS = [1, True, 1.0, 0, False, 0.0, "1", (), "", 2]
+# pairs that are always run (upstream value, default): equal values of a type and its SUBCLASS in both directions
+# (int/bool, str/str-Enum), and an upstream value that IS None while the parameter has a default or is falsy
+ALWAYS = [(True, 1), (1, True), (False, 0), (0, False), (_Colour.RED, "1"), ("1", _Colour.RED), (1.0, 1), (1, 1.0),
+          (None, "dflt"), (None, 0), (None, ()), (None, 2)]
 
 
 def equal_but_different(ctx):
@@ -104,6 +115,10 @@ def equal_but_different(ctx):
     pairs = [(x, d) for x in EQUALS for d in EQUALS]
     if ctx.tier == "quick":
         pairs = rng.sample(pairs, 30)
+    # equal CONTAINERS of one type whose ELEMENTS differ in type: change detection compares with == and the
+    # top-level type only (see known finding C01:values:wrong:equal-container-element-types)
+    nested = [([0.0], [0]), ((True,), (1,)), ({"k": 1.0}, {"k": 1}), ([[2.0]], [[2]])]
+    pairs = ALWAYS + pairs + nested
     for x, d in pairs:
         rt.reset_program()
         fns = {}
@@ -123,7 +138,11 @@ def equal_but_different(ctx):
             exp = {"a": x, "b": x, "c": repr(x)}
             got = {k: r.values.get(k) for k in exp}
             if repr(got) != repr(exp):
-                ctx.violation("C01:values:wrong", f"{runner}: prod({x!r})->a, mid(a={d!r})->b, last(b)->repr: got {got!r}, dependency-order evaluation gives {exp!r}", {"program": "equal-but-different chain", "x": repr(x), "default": repr(d), "runner": runner})
+                mech = ""
+                if type(x) is type(d) and isinstance(x, (list, tuple, dict)) and x == d and repr(x) != repr(d) and repr(got.get("a")) == repr(x) and repr(got.get("b")) == repr(x):
+                    # a and b carry the upstream value; only the node downstream of the re-run kept the stale result
+                    mech = ":equal-container-element-types"
+                ctx.violation("C01:values:wrong" + mech, f"{runner}: prod({x!r})->a, mid(a={d!r})->b, last(b)->repr: got {got!r}, dependency-order evaluation gives {exp!r}", {"program": "equal-but-different chain", "x": repr(x), "default": repr(d), "runner": runner})
     ctx.case({"directed": "equal-but-different"}, True)
 
 
